@@ -147,11 +147,15 @@ def streams(chk):
     E, LP = "cfg.enc_mode", "cfg.logical_processors"
     base = [dict(w=64, h=64, bd=8, content=4, **{E: 8, LP: 4}),
             dict(w=128, h=64, bd=8, content=2, **{E: 8, LP: 1}),
-            dict(w=192, h=128, bd=10, content=4, **{E: 7, LP: 4, "cfg.hierarchical_levels": 3})]
+            dict(w=192, h=128, bd=10, content=4, **{E: 7, LP: 4, "cfg.hierarchical_levels": 3}),
+            # one and two logical processors: the input / parent-PCS pools are sized to the bare minimum of
+            # load_default_buffer_configuration_settings, and a stream longer than that minimum (24 pictures at 4 hierarchical levels) is
+            # where an undersized pool blocks send_picture although the application drains after every send (seeded change C27-2)
+            dict(w=128, h=128, bd=8, content=4, **{E: 8, LP: 2})]
     if chk.tier == "quick":
-        plan = [(0, 1), (0, 2), (1, 2), (0, 9), (1, 9), (2, 9), (0, 33)]
+        plan = [(0, 1), (0, 2), (1, 2), (0, 9), (1, 9), (2, 9), (0, 33), (1, 60), (3, 60)]
     else:
-        plan = [(j, n) for n in (1, 2, 3, 9, 17, 33, 70, 150) for j in range(3)]
+        plan = [(j, n) for n in (1, 2, 3, 9, 17, 33, 70, 150) for j in range(4)]
     out = []
     for j, n in plan:
         a = dict(base[j])
